@@ -1,4 +1,5 @@
-import SSV.Model.Handshake
+import SSV.Proofs.Handshake
+import SSV.Proofs.HandshakeHttp
 /-
 C07 — property theorems (statements only live here; helper lemmas in SSV/Proofs/Handshake*.lean).
 -/
@@ -25,6 +26,297 @@ theorem reply_table : ∀ code, code < 256 →
 
 example : replyFromDialResultCode C07.DialResultCodeECONNREFUSED = 5 := by decide
 
+/-- What a SOCKS5 client puts on the wire (RFC 1928/1929): greeting with an arbitrary method list,
+optional user/password message, request. -/
+def s5ClientBytes (methods : Bytes) (cred : Option (Bytes × Bytes)) (cmd : UInt8) (a : Addr) : Bytes :=
+  [cVersion, u8 methods.length] ++ methods ++
+  (match cred with
+   | some (u, p) => authMsg u p
+   | none => []) ++
+  [cVersion, cmd, 0] ++ encodeAddr a
+
+/-- `socks5_faithful` (user/password mode): for every address, command, configured credential pair, method list
+offering user/password, every early data and EVERY fragmentation `cs` of the client's bytes, the server
+extracts exactly the client's (address up to the documented IPv4-mapped conversion, command, user), writes
+exactly the negotiated answers, and leaves exactly the early data unread. -/
+theorem socks5_faithful (users : List (Bytes × Bytes)) (tcp udp : Bool) (loc : Bool × Bytes × Nat)
+    (methods user pass early : Bytes) (cmd : UInt8) (a : Addr)
+    (hm1 : 1 ≤ methods.length) (hm2 : methods.length ≤ 255) (hoff : mUserPass ∈ methods)
+    (hu1 : 1 ≤ user.length) (hu2 : user.length ≤ 255) (hp1 : 1 ≤ pass.length) (hp2 : pass.length ≤ 255)
+    (ha : a.wf = true)
+    (hcfg : lookupUser users user = some (user, pass))
+    (cs : Chunks) (hcs : cs.flatten = s5ClientBytes methods (some (user, pass)) cmd a ++ early) :
+    ∃ inp' b', inp'.flatten = early ∧ (cmd = cmdConnect ∧ tcp = true → b'.length = C07.scratchLen) ∧
+      serverAcceptUserPass users tcp udp loc { inp := cs } =
+        if cmd = cmdConnect ∧ tcp = true then
+          (.ok (user, .pending a.norm, b'), (⟨inp', [cVersion, mUserPass, cAuthVersion, 0], []⟩ : St))
+        else if cmd = cmdUDP ∧ udp = true then
+          (.ok (user, .udpDone a.norm, b'), (⟨inp',
+            [cVersion, mUserPass, cAuthVersion, 0] ++ ([cVersion, repSucceeded, 0] ++ encodeIPPort loc.1 loc.2.1 loc.2.2), []⟩ : St))
+        else
+          (.ok (user, .unsupported a.norm cmd, b'), (⟨inp',
+            [cVersion, mUserPass, cAuthVersion, 0] ++ [cVersion, repCmdNotSupported, 0, atypV4, 0, 0, 0, 0, 0, 0], []⟩ : St)) := by
+  obtain ⟨hnw, hnz⟩ := norm_wf a ha
+  match methods, hm1 with
+  | m0 :: ms, _ =>
+  match user, hu1 with
+  | u0 :: us, _ =>
+  simp at hm2 hu2
+  have hnb : (newBuf).length = C07.scratchLen := by simp [newBuf]
+  -- stage 1
+  obtain ⟨i1, hi1, h1⟩ := methodSelection_spec newBuf hnb mUserPass m0 ms
+    (authMsg (u0 :: us) pass ++ [cVersion, cmd, 0] ++ encodeAddr a ++ early) (by omega) { inp := cs }
+    (by simp [hcs, s5ClientBytes])
+  have hc : (m0 :: ms).contains mUserPass = true := by simpa using hoff
+  rw [if_pos hc] at h1
+  obtain ⟨b1, h1, hb1⟩ := h1
+  -- stage 2
+  obtain ⟨i2, hi2, h2⟩ := userPass_spec users b1 (by rw [hb1, hnb]) u0 us pass
+    ([cVersion, cmd, 0] ++ encodeAddr a ++ early) (by omega) hp1 hp2
+    { inp := i1, out := [cVersion, mUserPass] } (by simp [hi1, authMsg])
+  rw [hcfg] at h2
+  simp only [if_true] at h2
+  obtain ⟨b2, h2, hb2⟩ := h2
+  -- stage 3
+  obtain ⟨i3, hi3, h3⟩ := handleRequest_spec tcp udp loc b2 (by rw [hb2, hb1, hnb]) cmd 0 a.norm hnw hnz early
+    { inp := i2, out := [cVersion, mUserPass] ++ [cAuthVersion, 0] } (by simp [hi2, encodeAddr_norm a ha])
+  have hlen : ∀ b3 : Bytes, b3.length = b2.length → b3.length = C07.scratchLen := by
+    intro b3 h; rw [h, hb2, hb1, hnb]
+  simp only [List.nil_append] at h1
+  have hrun : ∀ r, handleRequest tcp udp loc b2 { inp := i2, out := [cVersion, mUserPass] ++ [cAuthVersion, 0] } = r →
+      serverAcceptUserPass users tcp udp loc { inp := cs } =
+        (match r with
+          | (.ok x, s') => (.ok (u0 :: us, x.1, x.2), s')
+          | (.error e, s') => (.error e, s')) := by
+    intro r hr
+    unfold serverAcceptUserPass
+    simp only [bind_def, h1, h2, hr]
+    rcases r with ⟨_ | _, _⟩ <;> rfl
+  by_cases c1 : cmd = cmdConnect ∧ tcp = true
+  · rw [if_pos c1] at h3
+    obtain ⟨b3, h3, hb3⟩ := h3
+    refine ⟨i3, b3, hi3, fun _ => hlen b3 hb3, ?_⟩
+    rw [hrun _ h3]; simp [c1]
+  · rw [if_neg c1] at h3
+    by_cases c2 : cmd = cmdUDP ∧ udp = true
+    · rw [if_pos c2] at h3
+      obtain ⟨b3, h3⟩ := h3
+      refine ⟨i3, b3, hi3, fun h => absurd h c1, ?_⟩
+      have hne : ¬ (cmdUDP = cmdConnect) := by decide
+      rw [hrun _ h3]; simp [c2, hne]
+    · rw [if_neg c2] at h3
+      obtain ⟨b3, h3⟩ := h3
+      refine ⟨i3, b3, hi3, fun h => absurd h c1, ?_⟩
+      rw [hrun _ h3]; simp [c1, c2]
+
+
+/-- `socks5_faithful`, no-authentication mode. -/
+theorem socks5_faithful_noauth (tcp udp : Bool) (loc : Bool × Bytes × Nat)
+    (methods early : Bytes) (cmd : UInt8) (a : Addr)
+    (hm1 : 1 ≤ methods.length) (hm2 : methods.length ≤ 255) (hoff : mNoAuth ∈ methods)
+    (ha : a.wf = true)
+    (cs : Chunks) (hcs : cs.flatten = s5ClientBytes methods none cmd a ++ early) :
+    ∃ inp' b', inp'.flatten = early ∧ (cmd = cmdConnect ∧ tcp = true → b'.length = C07.scratchLen) ∧
+      serverAccept tcp udp loc { inp := cs } =
+        if cmd = cmdConnect ∧ tcp = true then
+          (.ok (.pending a.norm, b'), (⟨inp', [cVersion, mNoAuth], []⟩ : St))
+        else if cmd = cmdUDP ∧ udp = true then
+          (.ok (.udpDone a.norm, b'), (⟨inp',
+            [cVersion, mNoAuth] ++ ([cVersion, repSucceeded, 0] ++ encodeIPPort loc.1 loc.2.1 loc.2.2), []⟩ : St))
+        else
+          (.ok (.unsupported a.norm cmd, b'), (⟨inp',
+            [cVersion, mNoAuth] ++ [cVersion, repCmdNotSupported, 0, atypV4, 0, 0, 0, 0, 0, 0], []⟩ : St)) := by
+  obtain ⟨hnw, hnz⟩ := norm_wf a ha
+  match methods, hm1 with
+  | m0 :: ms, _ =>
+  simp at hm2
+  have hnb : (newBuf).length = C07.scratchLen := by simp [newBuf]
+  obtain ⟨i1, hi1, h1⟩ := methodSelection_spec newBuf hnb mNoAuth m0 ms
+    ([cVersion, cmd, 0] ++ encodeAddr a ++ early) (by omega) { inp := cs }
+    (by simp [hcs, s5ClientBytes])
+  have hc : (m0 :: ms).contains mNoAuth = true := by simpa using hoff
+  rw [if_pos hc] at h1
+  obtain ⟨b1, h1, hb1⟩ := h1
+  simp only [List.nil_append] at h1
+  obtain ⟨i3, hi3, h3⟩ := handleRequest_spec tcp udp loc b1 (by rw [hb1, hnb]) cmd 0 a.norm hnw hnz early
+    { inp := i1, out := [cVersion, mNoAuth] } (by simp [hi1, encodeAddr_norm a ha])
+  have hrun : ∀ r, handleRequest tcp udp loc b1 { inp := i1, out := [cVersion, mNoAuth] } = r →
+      serverAccept tcp udp loc { inp := cs } = r := by
+    intro r hr
+    unfold serverAccept
+    simp only [bind_def, h1, hr]
+  by_cases c1 : cmd = cmdConnect ∧ tcp = true
+  · rw [if_pos c1] at h3
+    obtain ⟨b3, h3, hb3⟩ := h3
+    refine ⟨i3, b3, hi3, fun _ => by rw [hb3, hb1, hnb], ?_⟩
+    rw [hrun _ h3]; simp [c1]
+  · rw [if_neg c1] at h3
+    by_cases c2 : cmd = cmdUDP ∧ udp = true
+    · rw [if_pos c2] at h3
+      obtain ⟨b3, h3⟩ := h3
+      refine ⟨i3, b3, hi3, fun h => absurd h c1, ?_⟩
+      have hne : ¬ (cmdUDP = cmdConnect) := by decide
+      rw [hrun _ h3]; simp [c2, hne]
+    · rw [if_neg c2] at h3
+      obtain ⟨b3, h3⟩ := h3
+      refine ⟨i3, b3, hi3, fun h => absurd h c1, ?_⟩
+      rw [hrun _ h3]; simp [c1, c2]
+
+/-- with authentication enabled nothing is honoured unless the presented pair is the configured one -/
+theorem socks5_auth_gate (users : List (Bytes × Bytes)) (tcp udp : Bool) (loc : Bool × Bytes × Nat)
+    (methods user pass tail : Bytes)
+    (hm1 : 1 ≤ methods.length) (hm2 : methods.length ≤ 255) (hoff : mUserPass ∈ methods)
+    (hu1 : 1 ≤ user.length) (hu2 : user.length ≤ 255) (hp1 : 1 ≤ pass.length) (hp2 : pass.length ≤ 255)
+    (hbad : ∀ u pw, lookupUser users user = some (u, pw) → pass ≠ pw)
+    (cs : Chunks) (hcs : cs.flatten = [cVersion, u8 methods.length] ++ methods ++ authMsg user pass ++ tail) :
+    ∃ inp', serverAcceptUserPass users tcp udp loc { inp := cs } =
+      (.error .badCreds, (⟨inp', [cVersion, mUserPass, cAuthVersion, 1], []⟩ : St)) := by
+  match methods, hm1 with
+  | m0 :: ms, _ =>
+  match user, hu1 with
+  | u0 :: us, _ =>
+  simp at hm2 hu2
+  have hnb : (newBuf).length = C07.scratchLen := by simp [newBuf]
+  obtain ⟨i1, hi1, h1⟩ := methodSelection_spec newBuf hnb mUserPass m0 ms
+    (authMsg (u0 :: us) pass ++ tail) (by omega) { inp := cs } (by simp [hcs])
+  have hc : (m0 :: ms).contains mUserPass = true := by simpa using hoff
+  rw [if_pos hc] at h1
+  obtain ⟨b1, h1, hb1⟩ := h1
+  simp only [List.nil_append] at h1
+  obtain ⟨i2, hi2, h2⟩ := userPass_spec users b1 (by rw [hb1, hnb]) u0 us pass tail (by omega) hp1 hp2
+    { inp := i1, out := [cVersion, mUserPass] } (by simp [hi1, authMsg])
+  refine ⟨i2, ?_⟩
+  unfold serverAcceptUserPass
+  cases hl : lookupUser users (u0 :: us) with
+  | none =>
+    rw [hl] at h2
+    simp only [bind_def, h1, h2]; simp
+  | some up =>
+    obtain ⟨u, pw⟩ := up
+    rw [hl] at h2
+    have := hbad u pw hl
+    simp only [this, if_false] at h2
+    simp only [bind_def, h1, h2]; simp
+
+/-- Proceed() writes the success reply and nothing else; the transport is untouched. -/
+theorem proceed_reply (b : Bytes) (hb : b.length = C07.scratchLen) (s : St) :
+    proceed b s = (.ok (), { s with out := s.out ++ [cVersion, repSucceeded, 0, atypV4, 0, 0, 0, 0, 0, 0] }) := by
+  have hb' : b.length = 262 := hb
+  unfold proceed replyWithStatus
+  simp only [bind_def]
+  rw [need_of _ (by simp [hb', C07.IPv4AddrLen])]
+  simp [C07.IPv4AddrLen, List.replicate]
+
+/-- Abort(code) writes the reply of the regenerated table (see `reply_table`). -/
+theorem abort_reports_dial_result (b : Bytes) (hb : b.length = C07.scratchLen) (code : Nat) (s : St) :
+    abort b code s = (.ok (), { s with out := s.out ++
+      [cVersion, u8 (replyFromDialResultCode code), 0, atypV4, 0, 0, 0, 0, 0, 0] }) := by
+  have hb' : b.length = 262 := hb
+  unfold abort replyWithStatus
+  simp only [bind_def]
+  rw [need_of _ (by simp [hb', C07.IPv4AddrLen])]
+  simp [C07.IPv4AddrLen, List.replicate]
+
+
+/-- Shadowsocks none: the server extracts the client's address and the tunnel starts with payload ++ later bytes. -/
+theorem none_faithful (a : Addr) (ha : a.wf = true) (payload early : Bytes) (cs : Chunks)
+    (hcs : cs.flatten = noneClient a payload ++ early) :
+    ∃ inp', inp'.flatten = payload ++ early ∧
+      noneServer { inp := cs } = (.ok a.norm, (⟨inp', [], []⟩ : St)) := by
+  obtain ⟨hnw, hnz⟩ := norm_wf a ha
+  obtain ⟨t, x, tail, hsh, hsel, hk⟩ := wire_shape a.norm hnw hnz
+  have hdec : decodeAddr (t :: x :: tail) = .ok a.norm := by rw [← hsh]; exact decode_wire _ hnw hnz
+  have hs : cs.flatten = t :: x :: (tail ++ (payload ++ early)) := by
+    rw [hcs, noneClient, encodeAddr_norm a ha, hsh]; simp
+  have hf : (dropC 2 cs).flatten = tail ++ (payload ++ early) := by rw [dropC_flatten, hs]; simp
+  refine ⟨dropC tail.length (dropC 2 cs), by rw [dropC_flatten, hf]; simp, ?_⟩
+  unfold noneServer
+  simp only [bind_def]
+  rw [readFullM_eq 2 _ (by simp [hs])]
+  simp only [hs]
+  simp only [List.take_succ_cons, List.take_zero]
+  rcases kSel_cases t x _ hsel with ⟨h1, hk'⟩ | ⟨h1, h2, hk'⟩ | ⟨h1, h2, h3, hk'⟩
+  · simp only [h1, if_true, bind_def]
+    rw [← hk', readFullM_eq _ _ (by simp [hf])]
+    simp [hf, ← h1, hdec]
+  · subst h2
+    simp only [atyp_ne1, ↓reduceIte, bind_def]
+    rw [show (5 : Nat) = tail.length from hk'.symm, readFullM_eq _ _ (by simp [hf])]
+    simp [hf, hdec]
+  · subst h3
+    simp only [atyp_ne2, atyp_ne3, ↓reduceIte, bind_def]
+    rw [show (17 : Nat) = tail.length from hk'.symm, readFullM_eq _ _ (by simp [hf])]
+    simp [hf, hdec]
+
+
+/-- `transparent_after_handshake` (HTTP CONNECT server, any fragmentation, any number of 407 rounds):
+when `ServerHandle` accepts a CONNECT, what the returned connection delivers (`s'.stream`: the bufio
+read-ahead first, then the transport) is exactly what the client sent minus a prefix that ends at a line
+end (the request head(s)): nothing behind the head is lost, duplicated or reordered.
+The proof needs the regenerated fact `connectKeepsReadAhead = true`: it does not elaborate against a tree
+whose CONNECT branch builds the pending connection on the raw connection (finding F5). -/
+theorem transparent_after_handshake (tk : Option (List (Bytes × Bytes))) (s s' : St) (u : Bytes) (a : Addr)
+    (h : serverHandleH C07.connectKeepsReadAhead tk s = (.ok (u, a), s')) :
+    ∃ consumed, s.stream = consumed ++ s'.stream ∧ consumed.getLast? = some LF := by
+  have hk : C07.connectKeepsReadAhead = true := by decide
+  rw [hk] at h
+  unfold serverHandleH getFuel at h
+  simp only [bind_def] at h
+  cases hl : serverLoopH tk (s.inp.flatten.length + 1) s with
+  | mk res s1 =>
+    cases res with
+    | error e => simp [hl] at h
+    | ok r =>
+      obtain ⟨u1, hd⟩ := r
+      simp only [hl] at h
+      cases hp : parseAddr hd.target with
+      | none => simp [hp] at h
+      | some a1 =>
+        simp [hp, keepReadAhead] at h
+        obtain ⟨_, h2⟩ := h
+        subst h2
+        exact serverLoopH_spec tk _ s s1 (u1, hd) hl
+
+/-- Proceed() on an accepted CONNECT writes the 200 line and leaves the tunnel stream alone. -/
+theorem proceedH_reply (s : St) :
+    proceedH s = (.ok (), { s with out := s.out ++ C07.status200 }) ∧ (proceedH s).2.stream = s.stream :=
+  ⟨rfl, rfl⟩
+
+/-- F5 witness: WITHOUT the wrapper (pending conn on the raw connection) the bytes that arrived in the same
+segment as the CONNECT head are lost. -/
+theorem transparent_fails_without_wrapper :
+    ∃ head early : Bytes, early ≠ [] ∧
+      (match (serverHandleH false none { inp := [head ++ early] }).1 with
+        | .ok r => r.2 == .dom [97] 1
+        | .error _ => false) = true ∧
+      (serverHandleH false none { inp := [head ++ early] }).2.stream = [] ∧
+      (serverHandleH true none { inp := [head ++ early] }).2.stream = early := by
+  refine ⟨[67, 79, 78, 78, 69, 67, 84, 32, 97, 58, 49, 32, 72, 84, 84, 80, 47, 49, 46, 49, 13, 10, 13, 10], [69], by decide, ?_, ?_, ?_⟩ <;> decide
+
+/-- a user found by the server's lookup is a listed user with that very name -/
+theorem configured_user_is_listed (users : List (Bytes × Bytes)) (name u pw : Bytes)
+    (h : lookupUser users name = some (u, pw)) : u = name ∧ (u, pw) ∈ users :=
+  lookupUser_mem users name u pw h
+
+-- the hypotheses are satisfiable: a configured user, a one-byte domain, early data, cut into single bytes
+example : lookupUser [([117], [112])] [117] = some ([117], [112]) := by decide
+example : ∃ cs : Chunks, cs.length = 18 ∧
+    cs.flatten = s5ClientBytes [mUserPass] (some ([117], [112])) cmdConnect (.dom [97] 80) ++ [1, 2] :=
+  ⟨(s5ClientBytes [mUserPass] (some ([117], [112])) cmdConnect (.dom [97] 80) ++ [1, 2]).map (fun b => [b]), by decide, by decide⟩
+example : (Addr.dom [97] 80).wf = true := by decide
+-- a wrong password for a configured user (hypothesis `hbad` of socks5_auth_gate)
+example : lookupUser [([117], [112])] [117] = some ([117], [112]) ∧ ([113] : Bytes) ≠ [112] := by decide
+
 end SSV.C07
 
 #print axioms SSV.C07.reply_table
+#print axioms SSV.C07.socks5_faithful
+#print axioms SSV.C07.socks5_faithful_noauth
+#print axioms SSV.C07.socks5_auth_gate
+#print axioms SSV.C07.configured_user_is_listed
+#print axioms SSV.C07.proceed_reply
+#print axioms SSV.C07.abort_reports_dial_result
+#print axioms SSV.C07.none_faithful
+#print axioms SSV.C07.transparent_after_handshake
+#print axioms SSV.C07.proceedH_reply
+#print axioms SSV.C07.transparent_fails_without_wrapper
